@@ -9,6 +9,8 @@ function, and states the postconditions with `vc.ensure(clause, cond)`.
 """
 from __future__ import annotations
 
+from ._safe import isinstance
+
 import dataclasses
 import json
 import os
@@ -80,6 +82,8 @@ class Ctx:
     def seq(self, name, kind): return V.draw_seq(name, kind)
     def opt(self, name, drawer, *a): return V.draw_opt(name, drawer, *a)
     def enum(self, name, members): return V.draw_enum(name, members)
+    def fin(self, name, members): return V.draw_fin(name, members)
+    lazy = fin
     def nondet(self, n, label=''): return self.eng.nondet(n, label)
 
     # ---- statements
@@ -171,6 +175,13 @@ class HarnessResult:
 
 def evaluate(m: z3.ModelRef | None, x, depth=0):
     """Symbolic summary -> plain python under model m (for the cross-check)."""
+    if isinstance(x, V.SFin):
+        if x._chosen is not V._UNRESOLVED:
+            x = x._chosen
+        elif m is not None:
+            x = x._members[m.eval(x.term, model_completion=True).as_long()]
+        else:
+            return '<fin>'
     if isinstance(x, V.SJson):
         return V.json_to_py(m, x.term) if m is not None else '<json>'
     if isinstance(x, V.SV):
@@ -258,7 +269,9 @@ def run_harness(h: Harness, *, tier: str, known_active: set[str], seed: int = 0)
                 if alt != c:
                     stack.append([x for _, x, _ in eng.taken[:i]] + [alt])
         model = pred = None
-        if outcome == 'done' and h.native_check:
+        if outcome == 'end' and eng.backedge:
+            outcome = 'backedge'
+        if outcome in ('done', 'backedge') and h.native_check:
             if eng.solver.check() == z3.sat:
                 m = eng.solver.model()
                 model = eng._extract_model(m)
@@ -295,14 +308,14 @@ def run_harness(h: Harness, *, tier: str, known_active: set[str], seed: int = 0)
     for cname, ok in canaries_refuted.items():
         if not ok:
             problems.append(f'vacuity: canary {cname} was not refuted (engine or precondition vacuous)')
-    if not any(p.outcome == 'done' for p in paths):
+    if not any(p.outcome in ('done', 'backedge') for p in paths):
         problems.append('vacuity: no path ran to completion')
 
     # -- CPython cross-check of explored paths
     crosschecked = 0
     mismatches: list[str] = []
     if h.native_check:
-        done = [i for i, p in enumerate(paths) if p.outcome == 'done' and p.model is not None]
+        done = [i for i, p in enumerate(paths) if p.outcome in ('done', 'backedge') and p.model is not None]
         limit = 60 if tier == 'quick' else 100000
         step = max(1, len(done) // limit)
         for i in done[::step]:
@@ -313,8 +326,10 @@ def run_harness(h: Harness, *, tier: str, known_active: set[str], seed: int = 0)
             except Exception as e:
                 outcome, res, eng = f'error:{type(e).__name__}: {e}', None, None
             crosschecked += 1
-            if outcome != 'done':
-                mismatches.append(f'path {p.no}: concrete run ended with {outcome!r} (symbolic: done) model={_brief(p.model)}')
+            if outcome == 'end' and eng is not None and eng.backedge:
+                outcome = 'backedge'
+            if outcome != p.outcome:
+                mismatches.append(f'path {p.no}: concrete run ended with {outcome!r} (symbolic: {p.outcome}) model={_brief(p.model)}')
                 continue
             bad = [n for n, ok in eng.conc_results if not ok]
             sym_status = {}
@@ -325,7 +340,7 @@ def run_harness(h: Harness, *, tier: str, known_active: set[str], seed: int = 0)
                 if sts and all(s == 'proved' for s in sts):
                     mismatches.append(f'path {p.no}: {n} proved symbolically but false on the concrete run, model={_brief(p.model)}')
             cres = _norm(evaluate(None, res))
-            if _norm(preds[i]) != cres:
+            if p.outcome == 'done' and _norm(preds[i]) != cres:
                 mismatches.append(f'path {p.no}: predicted outcome {preds[i]!r} != CPython outcome {cres!r}, model={_brief(p.model)}')
     for mm in mismatches:
         problems.append('cross-check: ' + mm)
@@ -336,7 +351,7 @@ def run_harness(h: Harness, *, tier: str, known_active: set[str], seed: int = 0)
             samples.append(dict(obligation=o.name, path=o.path, status=o.status, backend=o.backend))
     return HarnessResult(
         id=h.id, targets=h.targets, props=h.props, kind=h.kind, paths=len(paths),
-        paths_done=sum(1 for p in paths if p.outcome == 'done'),
+        paths_done=sum(1 for p in paths if p.outcome in ('done', 'backedge')),
         obligations=[dataclasses.asdict(o) for o in obs], by_clause=by_clause,
         canaries_refuted=canaries_refuted, problems=problems, crosschecked=crosschecked,
         crosscheck_mismatch=mismatches, wall_s=time.time() - t0, solver_s=solver_s,
